@@ -519,6 +519,26 @@ def check_min_cases(ctx, W, cases):
                           kind='correspondence', corr='coq/cost/MultiStart.v vs bqskit/ir/opt/instantiaters/minimization.py')
 
 
+def check_nan_cases(ctx, W):
+    """the witness of C19_multistart_nan_refuted (and its mirror image) replayed on the real multi-start code:
+    NaN cost keys are outside the theorems' hypothesis; the model with float `<` predicts what sorted()[0] keeps"""
+    for first_nan in (True, False):
+        costs = ['nan', '0.5'] if first_nan else ['0.5', 'nan']
+        case = dict(nq=1, ops=[['RXGate', [0], [0]]], starts=[[1], [2]], gen_len=2, ms=2, seed='none', target='ok', method='none',
+                    order=[dict(name='alpha', cap=True, run=[[[1], [10]], [[2], [20]]])], cost=[[[10], costs[0]], [[20], costs[1]]])
+        obs, extra = run_script_impl(W, case)
+        line = 'choosenan [[10] [20]] [[[10] %s] [[20] %s]]' % tuple('nan' if c == 'nan' else '1' for c in costs)
+        mo = vf.run_model('cost', [line])[0]
+        kept = [v for o in obs[1] for v in o[3]] if obs[0] == 'ok' else obs
+        ctx.case(('nan', first_nan), nontrivial=True)
+        ctx.count('directed:nan-cost:%s' % ('nan-first-kept' if kept == [10] and first_nan else 'finite-kept' if kept != [10 if first_nan else 20] else 'nan-kept'))
+        if pv(mo) != ['ok', kept]:
+            ctx.violation(dict(call='multi_start_instantiate_inplace', kind='model-mismatch', world='scripted-nan'), dict(kind='nan', first_nan=first_nan),
+                          mo, fmt(kept), 'float-with-NaN model of sorted()[0] and the implementation disagree', kind='correspondence',
+                          corr='coq/cost/MultiStart.v (fltb) vs sorted() in instantiater.py')
+    ctx.cov['nan_observation'] = 'a NaN-cost candidate in first position is kept over a finite-cost one (C19_multistart_nan_refuted; not reproduced with a real instantiater)'
+
+
 def check_overrides(ctx, W):
     """the model covers two definitions of multi_start_instantiate_inplace; any other override is not modelled"""
     base = W.Instantiater.multi_start_instantiate_inplace
@@ -1420,7 +1440,8 @@ def work(task):
             col = Collector()
             check_min_cases(col, _world(), payload)
             return ('calls', col.calls)
-        return ('result', payload, RUNNERS[kind](payload))
+        small, out = postprocess(payload, RUNNERS[kind](payload))
+        return ('result', small, out)
     except BaseException:
         import traceback
         return ('crash', task, traceback.format_exc())
@@ -1497,30 +1518,51 @@ def canon_sig(sig):
     return json.dumps(sig, sort_keys=True)
 
 
-def absorb(ctx, case, out, do_shrink=True):
+_KNOWN = []          # open known-finding signatures, set in the parent before the pool forks
+
+
+def known_match(sig):
+    return any(ks and all(sig.get(a) == b for a, b in ks.items()) for ks in _KNOWN)
+
+
+def label(case, problems):
+    """final signatures: add the gate a gradient/value problem is attributed to"""
+    culprit = None          # only a natively evaluated library gate identified by substitution is named in the signature
+    if case.get('kind') == 'cost' and any(p[0].get('symptom') in GRAD_SYMPTOMS + VALUE_SYMPTOMS for p in problems):
+        culprit = native_culprit(case, {canon_sig(p[0]) for p in problems})
+    out = []
+    for sig, exp, obs, what in problems:
+        sig = dict(sig)
+        if culprit and sig.get('symptom') in GRAD_SYMPTOMS + VALUE_SYMPTOMS:
+            sig['family'] = 'gradient' if sig['symptom'] in GRAD_SYMPTOMS else 'value'
+            sig['gate'] = culprit
+        out.append((sig, exp, obs, what))
+    return out
+
+
+def postprocess(case, out, do_shrink=True):
+    """in the worker: attribute, and shrink unless everything is an already known finding"""
+    if not out['problems']:
+        return case, out
+    labelled = label(case, out['problems'])
+    if do_shrink and case.get('kind') in ('cost', 'inst') and not all(known_match(p[0]) for p in labelled):
+        small = shrink(case, {canon_sig(p[0]) for p in out['problems']})
+        if small is not case:
+            out2 = RUNNERS[case['kind']](small)
+            if out2['problems']:
+                out2['counts'] = out['counts']
+                return small, dict(out2, problems=label(small, out2['problems']))
+    return case, dict(out, problems=labelled)
+
+
+def absorb(ctx, case, out):
     for k in out['counts']:
         ctx.count(k)
     ctx.case((case['kind'], json.dumps(case, sort_keys=True, default=str)), nontrivial=out['nontrivial'])
-    if out['problems']:
-        sigs = {canon_sig(p[0]) for p in out['problems']}
-        small = case
-        if do_shrink and not all(ctx._match_known(p[0]) for p in out['problems']) and \
-                not all(any(v['signature'] == p[0] for v in ctx.violations) for p in out['problems']):
-            small = shrink(case, sigs)
-            if small is not case:
-                out = RUNNERS[case['kind']](small)
-        culprit = None
-        if small.get('kind') in ('cost', 'inst'):
-            ops = small['circuit']['ops']
-            culprit = gate_label(ops[0][0]) if len(ops) == 1 else 'several'
-        if small.get('kind') == 'cost':
-            culprit = native_culprit(small, {canon_sig(p[0]) for p in out['problems']}) or culprit
-        for sig, exp, obs, what in out['problems']:
-            sig = dict(sig)
-            if culprit and sig.get('symptom') in GRAD_SYMPTOMS + VALUE_SYMPTOMS:
-                sig['family'] = 'gradient' if sig['symptom'] in GRAD_SYMPTOMS else 'value'
-                sig['gate'] = culprit
-            ctx.violation(sig, small, exp, obs, what)
+    for sig, exp, obs, what in out['problems']:
+        ctx.violation(sig, case, exp, obs, what)
+    if len(ctx.samples) < 6 and case.get('kind') in ('cost', 'inst') and not out['problems']:
+        ctx.sample(dict(kind=case['kind'], circuit=case['circuit'], target=case['target_kind'], observed=out['counts'][-3:]))
 
 
 def run_tasks(ctx, tasks):
@@ -1554,6 +1596,7 @@ def run(ctx: vf.Ctx):
     warnings.simplefilter('ignore')
     W = _world()
     py_gates()
+    _KNOWN[:] = [k.get('signature', {}) for k in ctx.known if k.get('status') == 'open']
     ctx.rule = ('(a) scripted Circuit.instantiate scenarios vs the extracted Coq model: random circuits (1-3 qubits, 0-5 ops), 1-8 starts, '
                 '1-4 scripted instantiaters with random capability, method none/name/object/bad, cost tables with ties, +-0, inf, denormals; '
                 '~15% malformed (multistarts 0/negative/non-int, bad seed, bad target, generator returning too few/no starts, wrong-length '
@@ -1576,6 +1619,7 @@ def run(ctx: vf.Ctx):
                    'harness/props/c19.py (textbook numpy formulas mirroring coq/cost/HS.v, scripted classes, canonicalisation)',
                    'numpy / scipy.stats.unitary_group; the native bqskitrs engine is the object under test, not trusted']
     check_overrides(ctx, W)
+    check_nan_cases(ctx, W)
 
     rng = ctx.rng
     tasks = []
@@ -1668,8 +1712,5 @@ def replay(ctx, data):
     if kind not in ('script', 'min') and kind not in RUNNERS:
         ctx.broken_obligation('unknown replay kind', str(kind))
         return
-    r = work((kind, payload))
-    if r[0] == 'result':
-        absorb(ctx, r[1], r[2], do_shrink=False)
-    else:
-        consume(ctx, [r])
+    _KNOWN[:] = [k.get('signature', {}) for k in ctx.known if k.get('status') == 'open']
+    consume(ctx, [work((kind, payload))])
